@@ -22,6 +22,7 @@ ORACLES = {
         'stdlib::py_floor_div_f64': ['stdlib::py_floor_div_f64'],
         'stdlib::py_mod': ['stdlib::py_mod'], 'stdlib::py_floor_div': ['stdlib::py_floor_div'], 'stdlib::py_div': ['stdlib::py_div'],
         'emit::determine_binop_plan': ['incan::binop_plan'], 'emit::emit_binop_token': ['incan::binop_plan'],
+        'emit::emit_binop_expr': ['incan::emit_division'], 'emit::NumericConversion::apply': ['incan::emit_division'],
         '*': ['core::py_mod_i64_impl', 'core::py_floor_div_i64_impl', 'stdlib::py_mod_i64', 'stdlib::py_floor_div_i64', 'stdlib::py_mod',
               'stdlib::py_floor_div', 'stdlib::py_div', 'core::py_mod_f64_impl', 'stdlib::py_mod_f64', 'stdlib::py_floor_div_f64',
               'incan::binop_plan', 'incan::emit_division'],
@@ -40,6 +41,11 @@ ORACLES = {
         'stdlib::range': ['stdlib::range'],
         'stdlib::str_index': ['stdlib::str_index'],
         'stdlib::str_slice': ['stdlib::str_slice'],
+        'emit::emit_index_expr': ['incan::emit_slice'], 'emit::emit_slice_expr': ['incan::emit_slice'],
+        'emit::emit_list_get_mut_lvalue': ['incan::emit_slice'], 'emit::emit_range_call': ['incan::emit_range'],
+        'parser::parse_slice': ['incan::emit_slice'], 'parser::index_or_slice': ['incan::emit_slice'], 'parser::peek': ['incan::emit_slice'],
+        'parser::is_at_end': ['incan::emit_slice'], 'parser::advance': ['incan::emit_slice'], 'parser::check': ['incan::emit_slice'],
+        'parser::match_token': ['incan::emit_slice'], 'parser::expect': ['incan::emit_slice'],
         '*': ['core::str_char_at', 'core::str_slice', 'stdlib::str_index', 'stdlib::str_slice', 'stdlib::list_get', 'stdlib::list_get_mut',
               'stdlib::list_slice', 'stdlib::dict_get', 'stdlib::dict_get_str', 'stdlib::range', 'incan::emit_slice', 'incan::emit_range'],
     },
@@ -49,6 +55,10 @@ ORACLES = {
         'lowering::extract_int_literal': [], 'lowering::pow_exponent_kind': [],
         'emit::determine_binop_plan': ['incan::binop_plan'], 'emit::emit_binop_token': ['incan::binop_plan'],
         'checker::check_binary': ['incan::static_type'],
+        'emit::emit_binop_expr': ['incan::emit_promotion'], 'emit::NumericConversion::apply': ['incan::emit_promotion'],
+        'emit::try_emit_static_str_add': ['incan::emit_promotion'],
+        'lowering::lower_statement(CompoundAssignment)': ['incan::emit_promotion', 'incan::compound_assign'],
+        'lowering::lower_expr(Binary)': ['incan::emit_promotion', 'incan::static_type'],
         '*': ['core::policy', 'incan::exponent_kind', 'incan::binop_plan', 'incan::static_type', 'incan::emit_promotion', 'incan::static_type_nested', 'incan::compound_assign'],
     },
     'C19': {
@@ -56,7 +66,8 @@ ORACLES = {
         'lsp::position_to_offset': ['lsp::position_to_offset', 'lsp::round_trip'],
         'lsp::span_to_range': ['lsp::span_to_range'],
         'syntax::get_line_info': ['syntax::get_line_info'],
-        '*': ['lsp::offset_to_position', 'lsp::round_trip', 'lsp::position_to_offset', 'lsp::monotone', 'lsp::span_to_range', 'syntax::get_line_info', 'lsp::diagnostic_range', 'lsp::server_ranges', 'incan::fmt_error_location', 'lsp::published_ranges'],
+        'lsp::compile_error_to_diagnostic': ['lsp::diagnostic_range'],
+        '*': ['lsp::offset_to_position', 'lsp::round_trip', 'lsp::position_to_offset', 'lsp::monotone', 'lsp::span_to_range', 'syntax::get_line_info', 'lsp::diagnostic_range', 'lsp::server_ranges', 'incan::fmt_error_location', 'lsp::published_ranges', 'lsp::dependency_ranges'],
     },
 }
 
